@@ -119,7 +119,15 @@ func showKVs(xs []kv) string {
 }
 
 func drawSortCase(rt *rapid.T, rec *kit.Rec, kinds []ordKind) sortCase {
+	// nothing bounds the length of a sorted sequence, and sorting algorithms switch strategy with the length
+	// (the standard library's insertion sort handles up to 12 elements): a quarter of the cases are longer
 	maxLen := kit.Pick(12, 40)
+	switch rapid.IntRange(0, 11).Draw(rt, "sizeClass") {
+	case 0, 1:
+		maxLen = 60
+	case 2:
+		maxLen = 300
+	}
 	var xs []kv
 	switch shape := rapid.IntRange(0, 9).Draw(rt, "shape"); {
 	case shape == 0:
@@ -218,7 +226,7 @@ func multisetDiff(in, out []kv) []string {
 
 func TestSort(t *testing.T) {
 	kinds := ordKinds()
-	base := "input xs of records {key,id} (len 0..12 quick / 0..40 thorough; shapes: empty/singleton, two keys x two ids, descending, random keys 0..4 ids 0..3) and an Ord drawn from {harness order by key, ContraMap, New, as.Ord, GivenField.Reversed, key.ThenComparing(id)}; the container gets a private copy of xs; "
+	base := "input xs of records {key,id} (len 0..12 quick / 0..40 thorough, in a quarter of the cases up to 60 or up to 300; shapes: empty/singleton, two keys x two ids, descending, random keys 0..4 ids 0..3) and an Ord drawn from {harness order by key, ContraMap, New, as.Ord, GivenField.Reversed, key.ThenComparing(id)}; the container gets a private copy of xs; "
 	sortRule := base + "non-trivial iff xs has two reference-equal elements and an inversion; distinct by (ord, xs)"
 	for _, c := range containers() {
 		c := c
